@@ -783,7 +783,11 @@ def conv_elem(arr, val):
 
 def builtin(interp, frame, name, args):
     """The few built-in functions the core generators use (string functions are C17's business)."""
-    vals = [interp.eval(frame, a) for a in args]
+    if name in ("LBOUND", "UBOUND"):
+        # the first argument is the array itself, not an expression
+        vals = [None] + [interp.eval(frame, a) for a in args[1:]]
+    else:
+        vals = [interp.eval(frame, a) for a in args]
     if name == "LEN":
         if vals[0][0] != "$":
             raise Discard("len_of_number")
